@@ -500,3 +500,7 @@ def run(S):
     # 'n distinct slot numbers in key order': the re-sort of a leaf uses the one key order (shared with C18)
     from checks.C18 import rule_use
     rule_use(S)
+    # 'inserting at a rank places the new slot there': the rank is computed on the full leaf, the side of the split is
+    # decided separately - the two agree only if both use the one key order (checks/shared.py)
+    from checks import shared
+    shared.key_order(S)
